@@ -200,8 +200,8 @@ func (r *runner) doConc(st step) {
 	w.preVMs = preVMs
 	r.liveRuns = nil
 	sch := gate.New()
-	sch.BlockedAfter = 3 * time.Second
-	sch.GiveUp = 20 * time.Second
+	sch.BlockedAfter = 10 * time.Second
+	sch.GiveUp = 40 * time.Second
 	queues := map[string][]concOp{}
 	var procs []string
 	for _, o := range st.Ops {
@@ -250,6 +250,9 @@ func (r *runner) doConc(st step) {
 		tr.published = a.run.published
 	}
 	stepActor := func(a *actorRun) {
+		if _, ok := sch.Await(a.name, sch.BlockedAfter); !ok {
+			return // still inside a critical section (blocked, see below): this scheduling decision is skipped
+		}
 		pos, err := sch.Step(a.name, "", "go")
 		if err != nil {
 			panic(fmt.Sprintf("scheduler: %v", err))
@@ -310,7 +313,7 @@ func (r *runner) doConc(st step) {
 		stepActor(a)
 	}
 	// run everything that is left to completion, round robin
-	deadline := time.Now().Add(60 * time.Second)
+	deadline := time.Now().Add(120 * time.Second)
 	for {
 		busy := false
 		for _, p := range procs {
@@ -403,7 +406,9 @@ func (r *runner) doConc(st step) {
 				}
 			}
 		}
-		if !anyFault[s] {
+		// "published and no change records" right after the requests returned is demanded only when nothing was pending
+		// before and no request was hit by a fault (otherwise: at the latest after the sweep, checked there)
+		if !anyFault[s] && r.subjectLogRows(pre.Subjects[s]) == 0 {
 			if ss.hasDocs() {
 				for _, d := range ss.byMethod("nuts") {
 					lh, _ := last(d.Hashes)
